@@ -245,7 +245,7 @@ def priceTable (cfg : Cfg κ) (repo : Builder κ) (priceWith : κ) (date : Date)
 /-- `ConversionError::RateNotFound`. -/
 inductive ConvErr (κ : Type) where
   | rateNotFound (value : SingleAmount κ) (target : κ) (date : Date)
-  deriving Repr
+  deriving Repr, DecidableEq
 
 /-- `PriceRepository::convert_single` (cache left out: see `convertSingleCached`). -/
 def convertSingle (cfg : Cfg κ) (repo : Builder κ) (value : SingleAmount κ) (commodityWith : κ) (date : Date) :
